@@ -22,7 +22,9 @@ P = {
  "C08": (True, "control-cone panic-freedom (container-provenance type-assert rule, compiler BCE report + idioms), may-hold lockset re-entrancy incl. recursive read locks, ERROR-reply must-pass-through (SSA edge cuts), no client I/O under shared locks",
          "Decides, for every byte sequence a control client can send, the structural clauses of C08: no comma-less type assertion on a value taken out of a JSON container anywhere in the control cone (384 functions); no compiler-unproven index/slice in session/command-parsing code without a stated idiom and none at all in the session loop; no explicit panic; no call made while a unit-index/work-type/status/control-function lock may be held whose same-goroutine callees acquire that lock again (self-deadlock, including RLock under RLock); assuming any of the seven failure sources of a request line fails, every path to the next read or return passes an ERROR-prefixed reply; no client socket I/O with a shared lock held. It does not decide memory growth, latency or replies of remote nodes.",
          "Trusts go/types, go/ssa, VTA, the compiler's prove pass, and the stated contracts (json.Unmarshal container shapes; typed ExtraData invariant)."),
- "C09": (False, "edge-cut inside the verifier closure; role/option agreement tables; who-may on InsecureSkipVerify and ReceptorVerifyFunc call sites", "", ""),
+ "C09": (True, "SSA edge cuts / failure-assumption rules inside the verifier closure, captured-state (statelessness) rule, role/digest agreement tables, constant-propagating path rule for verifier installation, who-may on InsecureSkipVerify and ReceptorVerifyFunc call sites, verifier chaining rule",
+         "Decides, for every certificate chain and configuration, that the verifier closure returns nil only if a certificate was presented, every certificate parsed, (no pins configured or a fingerprint flag that becomes true only on bytes.Equal with the digest of certs[0].Raw by the hash of matching size), x509 Verify with the role's pool and key usage at time.Now succeeded, and (not receptor mode or the expected node ID was found); that the verifier only reads the variables it captured (no state survives a handshake); that unknown roles fail; that InsecureSkipVerify=true is stored only on configs that get a VerifyPeerCertificate; that client and server profile verifiers receive the profile's pins, that every client-verifying ClientAuth setting leads to installing the verifier, and that the stream listener's node-binding verifier chains the profile's verifier and expects the packet source node; that name matching is plain == and decode errors propagate. It does not decide X.509 path validation.",
+         "Trusts go/types, go/ssa, crypto/x509 and crypto/tls callback contracts."),
  "C10": (True, "who-may tables (single relay site, senders to a connection, budget-field writers), positive-budget SSA edge cut, value identity of the decremented buffer that is sent, expiry-notice path rule and constant agreement",
          "Decides, for every packet and routing state, the inductive core of the hop bound: forwardMessage is the only relay site and is called only from handleMessageData; only it sends data-typed buffers to a connection; its send is unreachable unless md.HopsToLive > 0; the buffer sent is the encoder's output for the same packet with byte 1 decremented exactly once on every path; the budget field is written only by the decoder (from byte 1) and by SendMessageWithHopsToLive (the caller's value, unmodified, as set by SetHopsToLive/WriteTo); the budget-exhausted edge never reaches the relay and notifies md.FromNode with the four address fields and the 'message expired' constant that traceroute tests for. It does not decide 'reaches iff d <= h' on concrete topologies.",
          "Trusts go/types, go/ssa; byte arithmetic on a positive budget."),
